@@ -76,9 +76,12 @@ class DiscoveryOracle:
         src, key = sk
         for l in self.registered_matching(key):
             self.mark.discard((l, src, key))
+        if sk not in self.cands:
+            return  # nothing was live: nothing is owed
+        owed = self.certain.get(sk, False) and all(d != DEAD for d in self.cands[sk])
         for (l, s, k), (kind, _) in self.latest.items():
             if (s, k) == sk and kind == "offered":
-                self.explain.setdefault((l, s, k), []).append((cause, self.epoch))
+                self.explain.setdefault((l, s, k), []).append((cause, self.epoch, owed))
         self.cands.pop(sk, None)
         self.certain.pop(sk, None)
 
@@ -151,7 +154,7 @@ class DiscoveryOracle:
                 del self.regs[name]
                 for (l, s, k), (kind, _) in self.latest.items():
                     if l == name and kind == "offered":
-                        self.explain.setdefault((l, s, k), []).append(("unwatch", self.epoch))
+                        self.explain.setdefault((l, s, k), []).append(("unwatch", self.epoch, True))
                 self.mark = {m for m in self.mark if m[0] != name}
         elif f == "conn_lost":
             if self.conn_lost:
@@ -203,7 +206,7 @@ class DiscoveryOracle:
         sk = (src, key)
         ex = self.explain.get(k3)
         if ex:
-            cause, ep = ex.pop(0)
+            cause, ep, _owed = ex.pop(0)
             # an explicit removal is reported in the epoch in which it happened
             if ep != self.epoch:
                 self.viol("EXPIRY-TIME", f"'stopped' for {key} ({cause}) delivered after the loop went idle")
@@ -258,7 +261,7 @@ class DiscoveryOracle:
         for k3, ex in self.explain.items():
             if ex:
                 lname = k3[0]
-                if self.latest.get(k3, ("", 0))[0] == "offered" and (lname in self.regs):
+                if ex[0][2] and self.latest.get(k3, ("", 0))[0] == "offered" and (lname in self.regs):
                     self.viol("TRUTH", f"idle at {T:.6f}: {lname} was never told that {k3[2]} from {k3[1][0]} stopped ({ex[0][0]})")
                 ex.clear()
         st = (
